@@ -61,6 +61,16 @@ def run(c):
             if out:
                 c.cases("sup-tree-search", out, TREE_IMPORTS, "tcase", corr=[], spec=["spec_no_orphans"], premise=["premise_owner_died"])
             c.broken = keep + [b for b in c.broken if b not in keep]
+    # graceful Node.Stop() over random process trees (trapping actors spawned by other actors, supervisors, pools)
+    is_ns_replay = False
+    if c.replay:
+        import json
+        is_ns_replay = json.load(open(c.replay)).get("engine", "") == "sup-nodestop"
+    if not c.replay or is_ns_replay:
+        args = ["nodestop", "-replay", c.replay] if is_ns_replay else ["nodestop", "-n", "40" if c.tier == "quick" else "600"]
+        out = c.harness("sup", args, timeout=1500)
+        if out:
+            c.monitor("sup-nodestop", out)
     c.assumptions += sm.ASSUMPTIONS + TREE_ASSUMPTIONS + [
         "terminations that bypass the machine (Node.Kill of the supervisor, failed Spawn during a restart) rely on the "
         "LinkParent exit propagation of node/: theorem over the forest model Tree/Model.v (C10_tree_*), tied to the real node by "
